@@ -150,7 +150,7 @@ func parseReq(p *tk) *models.ChfConvergedChargingChargingDataRequest {
 		// another address (generated for updates and releases only: the address registered by the create stays the subscriber's)
 		r.NotifyUri = sinkURL + "/m/" + r.SubscriberIdentifier
 	}
-	applyCreateFlags(r, p.i()) // bit 0: oneTimeEvent; bits 1, 2: contents that OpenCDR refuses (chf_events.go)
+	applyCreateFlags(r, p.i()) // bit 0: oneTimeEvent; bits 1, 2: contents that OpenCDR refuses; bit 3: retransmissionIndicator (chf_events.go)
 	now := time.Now()
 	r.InvocationTimeStamp = &now
 	nt := int(p.i())
@@ -510,7 +510,9 @@ type genSess struct {
 	supi, nf, sid string
 	lastGrant     map[int]int
 	live          bool
-	cseq          map[int]int // used unit containers are numbered per charging session and rating group (TS 32.291): a subscriber's
+	inv           int // invocation sequence numbers are the consumer's, counted per session (two sessions of a subscriber
+	// use the same numbers)
+	cseq map[int]int // used unit containers are numbered per charging session and rating group (TS 32.291): a subscriber's
 	// second session starts at 1 again
 }
 
@@ -775,7 +777,8 @@ func genChf(o genOpts, w *bufio.Writer) {
 					s.live = true
 				}
 			}
-			fmt.Fprintf(w, "chf %s %s %s\n", op, hexOf([]byte(sid)), fmtReq(supiReq, s.nf, 100, i+1, r.pick(1, 1, 0, 2, 2), 0, trigs, usages))
+			s.inv++
+			fmt.Fprintf(w, "chf %s %s %s\n", op, hexOf([]byte(sid)), fmtReq(supiReq, s.nf, 100, s.inv, r.pick(1, 1, 0, 2, 2), r.pick(0, 0, 0, 0, 8), trigs, usages))
 			done++
 			if o.mode == "api" && r.chance(10) {
 				fmt.Fprintf(w, "chf recharge %s\n", hexOf([]byte(r.pickStr(s.supi+"_1", s.supi+"_2", s.supi, s.supi+"_x", "imsi-404_1", s.supi+"_1_2", "_", s.supi+"_-3", s.supi+"_99999999999",
